@@ -67,6 +67,28 @@ CLAIMED = {
         text="Every value x every input form (incl. forms of children reached through nesting, read items from another region, owned-borrowed read items) mixed arbitrarily up to the depth bound: equal indices, equal per-storage used bytes, equal complete renderings.", note="", ref="DESIGN.md §4 C20"),
 }
 
+
+# additions of the later seeded-change rounds (3b, 4), appended to the notes
+EXTRA = {
+    "C01": "Coded compositions (columns over dictionary / Huffman columns, slices and strings over coded regions) are explored across merge_regions from one to three sources of different shapes: a value held by a source must be accepted by the merged region. Huffman machines run across two generations; at every merge the real code table is compared with the one for the symbols actually pushed.",
+    "C04": "Histories of 2^20+3 items before clear / push / re-read are part of the quick tier (sampled re-reads: first and last 64 items, every 1009th).",
+    "C05": "The iterators are also read through nth / skip / step_by, which must agree with stepping.",
+    "C06": "Also: statistics whose total is 2^32+6 (a source region handed to merge_regions 65536 times); 65 600 (quick) / 140 000 and 70 000 mixed (thorough) distinct u32 symbols in a one-step build machine (acceptance, Kraft equality, optimality, read-back); a raw-start machine (clear first) with coded / raw / borrowed read items and the merge-vs-pushed-symbols oracle.",
+    "C07": "Seeds 8 (summary compaction with more than 512 strings of weight >= 2 and lighter ones behind), 9 (two sources, a shared string below the 256 heaviest of either), 10 (a cleared region that then receives 1700 pushes). With exact statistics (fewer than 1024 pushes per source, fewer than 1024 summary entries in all) the strictly most frequent string must be stored in one byte. A failing push or merge while building a seed state is a violation.",
+    "C08": "Histories of 2^20+3 items before the clear. Dictionary-coded regions: every cleared region has a fresh twin that receives the same pushes; merge_regions over the cleared regions and over their twins must learn the same dictionary (entries and bound tags).",
+    "C09": "clone_from destinations include an empty region / stack returned by merge_regions / merge_capacity (which carries a code table for coded regions).",
+    "C10": "Huffman machines across two generations (items arriving as read items of other coded containers) are part of this check.",
+    "C11": "A dedicated machine covers CollapseSequence<HuffmanContainer<u8>>: equal neighbours must collapse whether they arrive borrowed, from a raw container, or from containers coded with the same or another table.",
+    "C12": "Coded columns / slices after merge_regions from up to three sources of different widths are numbered 0, 1, 2, ... for covered rows.",
+    "C13": "A second family pushes in every input form (read items of other regions, borrowed items, iterators) before probing.",
+    "C14": "Huffman machines (codes of 1..10 bits, 257 u16 symbols) check clone_onto / into_owned on encoded items.",
+    "C15": "Slices of 63..1025 elements differing in exactly one position, for every position; coded items of 29..32 symbols.",
+    "C16": "ResultRegion over stride-compressed sides (a side that has only seen empty items uses no heap but is not Default).",
+    "C17": "Also: 64 / 256 / 1024 separate three-item extend calls on a FlatStack without pre-sizing (O(log n) allocator calls per storage); SliceRegion over a plain Vec element region.",
+    "C18": "Also: one 72 MiB item, and rows of 1030 / 5000 / 70 000 cells, followed by clear: no storage may disappear from heap_size and no capacity may shrink.",
+    "C20": "Forms include Vec<T> with spare capacity. Huffman containers (raw start and coded start): slices, raw / coded / borrowed read items must leave the same statistics (compared at the next merge_regions with the symbols pushed).",
+}
+
 PENDING_REASON = "not claimed"
 
 def main():
@@ -86,7 +108,7 @@ def main():
                 "replay_cmd_template": f"./check {pid} --replay {{path}}",
                 "engine": "fcmc",
                 "level_claimed": {"category": "model_checking", "text": c["text"], "design_ref": c["ref"]},
-                "level_note": c["note"],
+                "level_note": c["note"] + (" " + EXTRA[pid] if pid in EXTRA else ""),
                 "technique": c["technique"],
             })
         else:
